@@ -19,13 +19,20 @@ must accept the engine's list order as a permutation of the set it computes.
 ORACLE (independent of the model): this module plays the owners.  It remembers every id NewPage returned and it has
 not given back; owners survive a clean restart, and a crash restart if their page reached the db file or their
 NewTablePage record reached the log file.  An id handed out while an owner holds it, or two frames of the pool
-holding the same page id, is a violation (res.oracle_failures).  Violations carry a signature:
-  F-ALLOC-BEYOND-FILE  the restart image was ill formed (model: pa_image_ok = false): an id of the rebuilt reusable
-                       list lies at or above the point the allocator restarts from
+holding the same page id, is a violation.  Violations carry a signature:
   F-ALLOC-LOG-RACE     an allocation overtook the log half of a deallocation (model: pa_client_ok = false; only in
-                       histories that emulate two threads, see `races`)
-Two probes outside the model correspondence: run_db_probe (the beyond-file witness through SQL on a whole database) and
-run_thread_probe (the log race with real goroutines).
+                       histories that emulate two threads, see `races`, and in the two race probes).  A recorded
+                       finding: reported through res.known_hits["F-ALLOC-LOG-RACE"], not res.oracle_failures.
+  ILL-FORMED-IMAGE     the model calls the restart image ill formed (pa_image_ok = false).  For the current engine
+                       that is the owned half only, which this module's owners keep: not expected.  For the pre-fix
+                       model (variant "prefix", engine before d99b876) it is the repaired defect F-ALLOC-BEYOND-FILE.
+  UNEXPLAINED          anything else.
+Everything but F-ALLOC-LOG-RACE goes to res.oracle_failures.  The default run (model of the current engine, Redo with
+the repair d99b876) expects no mismatch and no oracle failure, with temporary pages given back above the end of the
+db file included.
+Three probes outside the model correspondence: run_db_probe (the witness of the repaired defect through SQL on a whole
+database: must find nothing now), run_race_probe (the log race as a single-threaded interleaving of pool calls,
+deterministic) and run_thread_probe (the log race with real goroutines); the race probes fill res.known_hits.
 Not observable: DiskManagerImpl.nextPageID (read through probes and through every NewPage answered while the
 reusable list is empty).
 """
@@ -37,6 +44,18 @@ from dbsession import Proc
 
 HARNESS = os.environ.get("PAGEALLOC_HARNESS", HARNESS_BIN)
 DRIVER = os.environ.get("PAGEALLOC_DRIVER", os.path.join(BUILD, "pagealloc_driver"))
+
+
+RACE = "F-ALLOC-LOG-RACE"
+
+
+def _hit(res, what):
+    """record a reproduction of the listed finding (several probes may add to the same entry)"""
+    old = res.known_hits.get(RACE)
+    if old is None:
+        res.known_hits[RACE] = what
+    elif what[:60] not in old:
+        res.known_hits[RACE] = old + " || " + what
 
 
 class Diverged(Exception):
@@ -70,7 +89,7 @@ class Corr:
         self.engine = None
         self.variant = variant
         self.model = Proc([DRIVER] + ([variant] if variant else []))
-        self.nhist = self.nops = self.nmis = self.norc = 0
+        self.nhist = self.nops = self.nmis = self.norc = self.nrace = 0
         self.kinds = {}
         self.stats = {"new": 0, "reused": 0, "dealloc": 0, "clean": 0, "crash": 0, "illformed_images": 0,
                       "race_windows": 0, "evictions_of_flagged": 0}
@@ -166,7 +185,7 @@ class Corr:
 
     def oracle(self, msg):
         if self.image_bad:
-            sig = "F-ALLOC-BEYOND-FILE"
+            sig = "F-ALLOC-BEYOND-FILE (repaired by d99b876)" if self.variant == "prefix" else "ILL-FORMED-IMAGE"
         elif self.contract_broken:
             sig = "F-ALLOC-LOG-RACE"
         else:
@@ -477,9 +496,11 @@ class Corr:
 
 
 def run_corr(res, rng, nhist, variant="", avoid=None, races=None):
-    """see the module header.  avoid: {"beyond"} keeps every released id below the db file size (the histories then
-    stay inside the hypotheses of Props/C13Alloc.v and no oracle failure is expected); races: also emulate the
-    two-thread interleaving of the skip-list deallocation.  Defaults from env PAGEALLOC_AVOID / PAGEALLOC_RACES."""
+    """see the module header.  variant: "" = model of the current engine, "prefix" = model of the start-up before
+    d99b876 (mismatches expected against the repaired engine).  avoid: {"beyond"} keeps every released id below the db
+    file size (not needed for the current engine).  races: also emulate the two-thread interleaving of the skip-list
+    deallocation; what the oracle finds there is F-ALLOC-LOG-RACE -> res.known_hits.
+    Defaults from env PAGEALLOC_AVOID / PAGEALLOC_RACES."""
     if avoid is None:
         avoid = [x for x in os.environ.get("PAGEALLOC_AVOID", "").split(",") if x]
     if races is None:
@@ -503,7 +524,13 @@ def run_corr(res, rng, nhist, variant="", avoid=None, races=None):
                 c.nhist += 1
                 c.norc += 1
                 sig = str(o).split(":")[0]
-                if sig not in seen_sig and len(res.oracle_failures) < 6:
+                if sig == RACE:
+                    c.nrace += 1
+                    c.norc -= 1
+                    if c.nrace == 1:
+                        _hit(res, "emulated two-thread interleaving of a skip-list page deallocation "
+                                              "(SetIsDeallocated, unpin | other thread: NewPage ... | DeallocatePage(id,false)), restart: " + str(o))
+                elif sig not in seen_sig and len(res.oracle_failures) < 6:
                     seen_sig.add(sig)
                     res.oracle_failures.append((head + c.transcript(), "page id handed out while in use: " + str(o)))
                 c.stop_engine()
@@ -523,6 +550,7 @@ def run_corr(res, rng, nhist, variant="", avoid=None, races=None):
         x["ops"] = x.get("ops", 0) + c.nops
         x["mismatches"] = x.get("mismatches", 0) + c.nmis
         x["oracle_failures"] = x.get("oracle_failures", 0) + c.norc
+        x["log_race_hits"] = x.get("log_race_hits", 0) + c.nrace
         for a, b in c.stats.items():
             x[a] = x.get(a, 0) + b
         k = x.setdefault("kinds", {})
@@ -551,7 +579,7 @@ def _session(cmds, timeout=120.0):
 
 
 def run_db_probe(res):
-    """The witness of restart_reuse_beyond_file_refuted through the real callers, on a whole database
+    """Regression probe.  The witness of restart_reuse_beyond_file_refuted (pre-fix code) through the real callers, on a whole database
     (samehada.NewSamehadaDB): two hash joins (one temporary page, allocated above every page that was written,
     given back by DeallocatePage(id,true)), clean Shutdown, reopen.  The start-up rebuilds the skip list indexes
     with NewPage: the oracle is "no two frames of the pool hold the same page id"."""
@@ -573,32 +601,101 @@ def run_db_probe(res):
     if dup:
         res.oracle_failures.append((
             "# page-id allocation, whole database (lib/alloccorr.py run_db_probe): commands to `verifharness pagealloc`\n" + t,
-            "page id handed out while in use: F-ALLOC-BEYOND-FILE: after a clean shutdown and reopen two frames of the "
+            "page id handed out while in use: F-ALLOC-BEYOND-FILE (repaired by d99b876) is back: after a clean shutdown and reopen two frames of the "
             "pool hold page id %s (npages0=%s, allocation records in the log: %s)" % (dup, out[-1].get("npages0"), out[-1].get("log"))))
 
 
-def run_thread_probe(res, goroutines=8, iters=1500, keep=7):
-    """Real threads: goroutines loop NewPage / UnpinPage(dirty) / DeallocatePage(id,true) and keep every keep-th page;
-    crash; restart.  Oracle: no id of the rebuilt reusable list is one a goroutine kept (takes ~20 s: every reuse
-    and every deallocation syncs the log file)."""
+def run_race_probe(res):
+    """F-ALLOC-LOG-RACE, deterministic: the interleaving of two threads as one sequence of pool calls.  Thread A removes
+    a skip-list node (SkipListBlockPage.Remove: SetIsDeallocated(true), unpin; SkipList.Remove then calls
+    DeallocatePage(id,false) without holding any lock in between); thread B allocates pages in that window: the flagged
+    page is cached out, its id goes to the reusable list and B gets it (REUSE_PAGE logged); then A's DEALLOCATE_PAGE
+    record is appended.  Clean shutdown, restart, NewPage: B's page id is handed out a second time.
+    Fills res.known_hits[RACE] and returns True if the engine shows it."""
+    frames = 4
+    cmds = ["init r %d" % frames, "new", "unpin 0 1", "flush 0",          # page 0: a skip-list node, in the db file
+            "fetch 0", "mark 0", "unpin 0 1"]                              # thread A, first half
+    # then thread B allocates until it is handed id 0; then A's second half, restart, one more NewPage
+    os.makedirs(os.path.join(BUILD, "tmp"), exist_ok=True)
+    d = tempfile.mkdtemp(prefix="pagealloc_r_", dir=os.path.join(BUILD, "tmp"))
+    eng = Proc([HARNESS, "pagealloc", "-", d])
+    log = []
+
+    def ask(c):
+        log.append("E> " + c)
+        r = eng.ask(c, 60.0)
+        log.append("E< " + str(r)[:1500])
+        return None if r is None else kvs(r)
+    hit = False
+    x = res.extra.setdefault("page_alloc_histories", {})
+    res.note_case("pagealloc-race-probe", True)
+    try:
+        ok = True
+        for c in cmds:
+            ok = ok and ask(c) is not None
+        got = None
+        for i in range(3 * frames):
+            if not ok:
+                break
+            e = ask("new")
+            if e is None or "id" not in e:
+                ok = False
+                break
+            if e["id"] == "0":
+                got = e
+                break
+            ok = ask("unpin %s 1" % e["id"]) is not None
+        if ok and got is not None:
+            ok = ask("dealloc 0 0") is not None and ask("unpin 0 1") is not None and ask("close") is not None
+            e = ask("open r %d" % frames) if ok else None
+            if e is not None:
+                records = e.get("log", "")
+                e2 = ask("new")
+                # thread B still owns page 0 (it was never given back after B got it)
+                if e2 is not None and e2.get("id") == "0":
+                    hit = True
+                    _hit(res, 
+                        "single-threaded interleaving of pool calls (thread A: SetIsDeallocated(0), unpin | thread B: NewPage "
+                        "until it is handed id 0 | thread A: DeallocatePage(0,false)); clean shutdown, restart: the log holds %s, the "
+                        "rebuilt reusable list holds id 0 and NewPage hands it out while thread B's owner holds it" % records)
+        x["race_probe"] = "hit" if hit else ("not shown" if ok else "harness died")
+        if not ok:
+            res.broken.append("page allocation: the race probe did not finish:\n" + "\n".join(log[-6:]))
+        return hit
+    finally:
+        eng.kill()
+        shutil.rmtree(d, ignore_errors=True)
+
+
+def run_thread_probe(res, goroutines=16, iters=150, keep=2):
+    """F-ALLOC-LOG-RACE with real threads: goroutines loop NewPage / UnpinPage(dirty) / DeallocatePage(id,true) and keep
+    every keep-th page; crash; restart.  Looks for ids of the rebuilt reusable list that a goroutine kept, and for
+    DEALLOCATE_PAGE / REUSE_PAGE records of one id that do not alternate in the log file.  Either fills
+    res.known_hits[RACE]; returns True if it did.  (~5 s: every reuse and every deallocation syncs the log file.)"""
     t, out = _session(["init r 64", "racestress %d %d %d" % (goroutines, iters, keep), "staleowned", "crash",
-                       "open r 64", "staleowned"], timeout=600.0)
+                       "open r 64", "staleowned"], timeout=300.0)
     x = res.extra.setdefault("page_alloc_histories", {})
     res.note_case("pagealloc-thread-probe", True)
     if out is None:
         res.broken.append("page allocation: the thread probe did not finish")
-        return
-    x["thread_probe_log_order_violations"] = int(out[1].get("violations", "0"))
+        return False
+    viol = int(out[1].get("violations", "0"))
+    x["thread_probe_log_order_violations"] = viol
     stale = ilist(out[-1].get("stale"))
     x["thread_probe_stale_owned_ids"] = len(stale)
     if ilist(out[2].get("stale")):
         res.oracle_failures.append((t[:6000], "page id handed out while in use: UNEXPLAINED: the in-memory reusable list holds an id a thread owns: %s" % out[2].get("stale")))
     if stale:
-        res.oracle_failures.append((
-            "# page-id allocation, real threads (lib/alloccorr.py run_thread_probe)\n" + t[:6000],
-            "page id handed out while in use: F-ALLOC-LOG-RACE: after a crash restart the rebuilt reusable list holds "
-            "ids that threads still own: %s (REUSE_PAGE / DEALLOCATE_PAGE records out of order %s times in the log)"
-            % (stale, out[1].get("violations"))))
+        _hit(res, ("%d goroutines looping NewPage / UnpinPage / DeallocatePage(id,true), crash, restart: the rebuilt "
+                                "reusable list holds ids that threads still own: %s (REUSE_PAGE / DEALLOCATE_PAGE records out of "
+                                "order %d times in the log)" % (goroutines, stale, viol)))
+        return True
+    if viol:
+        _hit(res, "%d goroutines looping NewPage / UnpinPage / DeallocatePage(id,true): the REUSE_PAGE record of "
+                                  "an allocation precedes the DEALLOCATE_PAGE record of the deallocation it reuses %d times in the "
+                                  "log file (first: %s); no id a thread kept was affected in this run" % (goroutines, viol, out[1].get("first")))
+        return True
+    return False
 
 
 if __name__ == "__main__":
@@ -608,17 +705,22 @@ if __name__ == "__main__":
     ap.add_argument("--n", type=int, default=200)
     ap.add_argument("--avoid", default=None, help="comma separated: beyond")
     ap.add_argument("--races", action="store_true")
-    ap.add_argument("--variant", default="", help="'fixed': run the MODEL of the repaired start-up (mismatches expected on the unrepaired engine)")
+    ap.add_argument("--variant", default="", help="'prefix': run the MODEL of the start-up before d99b876 (mismatches expected on the repaired engine)")
     ap.add_argument("--show", type=int, default=1)
     ap.add_argument("--db-probe", action="store_true", help="also the whole-database witness (hash join, clean restart)")
-    ap.add_argument("--thread-probe", action="store_true", help="also the real-thread probe (~20 s)")
+    ap.add_argument("--thread-probe", action="store_true", help="also the real-thread probe (~5 s)")
+    ap.add_argument("--race-probe", action="store_true", help="also the deterministic interleaving probe")
     a = ap.parse_args()
     res = Result("ALLOCCORR", "cli", a.seed)
     run_corr(res, random.Random(a.seed), a.n, a.variant, None if a.avoid is None else a.avoid.split(","), a.races or None)
     if a.db_probe:
         run_db_probe(res)
+    if a.race_probe:
+        print("race probe:", run_race_probe(res))
     if a.thread_probe:
-        run_thread_probe(res)
+        t0 = time.time()
+        print("thread probe:", run_thread_probe(res), "%.1fs" % (time.time() - t0))
+    print("known_hits:", json.dumps(res.known_hits, indent=1))
     print(json.dumps(res.extra, indent=1, sort_keys=True))
     print("evaluations=%d nontrivial=%d mismatches=%d oracle_failures=%d broken=%s" % (
         res.evaluations, len(res.nontrivial), len(res.mismatches), len(res.oracle_failures), res.broken))
